@@ -102,6 +102,25 @@ func (p c09) Run(c *core.Ctx, idx int) {
 	// cases and case members contributed by an augmenting module (the choice learns of them after it was compiled)
 	o.Aug = idx%5 == 2
 	s := dp.GenSchema(r, o)
+	if o.Aug && s.AugName != "" {
+		// always: a choice of the main module that the augmenting module gives one more case and one more shorthand member
+		var ch *dp.SNode
+		for _, t := range s.Top {
+			if t.Kind == dp.Choice && t.Module == "" {
+				ch = t
+				break
+			}
+		}
+		if ch == nil {
+			ch = &dp.SNode{Kind: dp.Choice, Name: "augch", Children: []*dp.SNode{
+				{Kind: dp.Case, Name: "augch-own", Children: []*dp.SNode{{Kind: dp.Leaf, Name: "augch-own1", Type: &dp.SType{Base: "string"}}}}}}
+			s.Top = append(s.Top, ch)
+		}
+		ch.Children = append(ch.Children,
+			&dp.SNode{Kind: dp.Case, Name: "zaug", Module: s.AugName, Children: []*dp.SNode{
+				{Kind: dp.Leaf, Name: "zaug1", Module: s.AugName, Type: &dp.SType{Base: "string"}}, {Kind: dp.Leaf, Name: "zaug2", Module: s.AugName, Type: &dp.SType{Base: "int32"}}}},
+			&dp.SNode{Kind: dp.Case, Name: "zshort", Short: true, Module: s.AugName, Children: []*dp.SNode{{Kind: dp.Leaf, Name: "zshort", Module: s.AugName, Type: &dp.SType{Base: "string"}}}})
+	}
 	hasChoice := false
 	maxNest := 0
 	s.Walk(func(n *dp.SNode) {
